@@ -169,6 +169,23 @@ func replayNative(dir string, v *Violation, lc LoadConfig) (bool, string) {
 			s, err = string(out2), err2
 		}
 	}
+	if v.Multi && v.Kind != "race" && !replayMatches(v, s) && !strings.Contains(s, "VERIF-SCHED-DIVERGED") {
+		// The recorded schedule fixes the order of synchronisation operations, not which of
+		// several READY cases a real select takes (the runtime picks at random): repeat the
+		// scheduled replay a few times before giving up.
+		for i := 0; i < 6; i++ {
+			cmd3 := exec.CommandContext(ctx, "go", "test", "-vet=off", "-count=1", "-timeout", "60s",
+				"-overlay", filepath.Join(dir, "overlay.json"), "-run", "^TestVerifReplay$", "-v", ".")
+			cmd3.Dir = lc.PkgDir
+			cmd3.Env = append(os.Environ(), "GOPROXY=off")
+			out3, err3 := cmd3.CombinedOutput()
+			if replayMatches(v, string(out3)) {
+				os.WriteFile(filepath.Join(dir, "replay.log"), out3, 0o644)
+				s, err = string(out3), err3
+				break
+			}
+		}
+	}
 	switch v.Kind {
 	case "violation":
 		if strings.Contains(s, "VERIF-ASSERT-FAILED label="+v.Label) {
